@@ -587,6 +587,48 @@ def check_dict_feedback(chk, rng):
     chk.notes["dictionary_feedback_scenarios"] = len(scns)
 
 
+def check_map_feedback(chk, rng):
+    """a feedback loop INSIDE every child of a map_: each key accumulates its own values through its own loop (passive
+    reader); a delivery is due one step after the write - also when, in that cycle, the map is woken only by another
+    key's tick.  Level A here is the statement itself: per key, written value k+1 = value + what was written before."""
+    import check_ops
+    scns, metas = [], []
+    for k in range(60 if chk.tier == "quick" else 900):
+        horizon = rng.choice([7, 9])
+        hist = check_ops.dict_history(rng, [1, 2, 3], horizon, maxops=3)
+        if not hist:
+            continue
+        lines = ["scn mapfb%d" % k, "opt start=1 end=%d" % (horizon + 1), "graph g0 nin=1", "n 20 fb", "n 21 sumu in=a0,p:20", "bind 20 21",
+                 "out 21", "endgraph", "graph root", "n 1 dsrc script=" + check_ops.dscript(hist), "n 3 map g=0 in=1", "n 4 drec in=3",
+                 "endgraph", "run"]
+        scns.append("\n".join(lines))
+        metas.append((hist, horizon))
+    traces = hg.run_driver("engine", scns)
+    for scn, (hist, horizon), tr in zip(scns, metas, traces):
+        chk.count({"scn": scn})
+        if isinstance(tr, dict) or any(e["e"] in ("wirefail", "harnessfail") for e in tr):
+            chk.violation("mapfb:run", "map_ with an inner feedback loop crashed or could not be wired", scn)
+            continue
+        want = {}
+        for key, lst in check_ops.intervals(hist, horizon).items():
+            for (a, r, el) in lst:
+                total = 0
+                for t, v in el:
+                    total += v
+                    want.setdefault(t, []).append([key, total])
+        got = {}
+        for e in tr:
+            if e["e"] == "drec" and e["id"] == 4 and e["mod"]:
+                got[e["t"]] = sorted(e["mod"])
+        want = {t: sorted(v) for t, v in want.items()}
+        if want != got:
+            tdiff = next(t for t in sorted(set(want) | set(got)) if want.get(t) != got.get(t))
+            chk.violation("mapfb:stream", "inner feedback of a mapped child at cycle %d: every key must write value + its own previous "
+                          "total %s, map_ produced %s" % (tdiff, want.get(tdiff), got.get(tdiff)), "# C08 feedback inside map_ children\n" + scn + "\n")
+    chk.coverage["traces_validated_against_impl"] += len(scns)
+    chk.notes["map_inner_feedback_scenarios"] = len(scns)
+
+
 def check_c08(chk, rng):
     n = 300 if chk.tier == "quick" else 4000
     progs = [fb_program(rng, i + 1, rng.choice([5, 7, 9])) for i in range(n)]
@@ -603,6 +645,7 @@ def check_c08(chk, rng):
     verdicts = validate(cases, chk, "c08")
     judge("C08", cases, verdicts, chk, ("C08.",), stream_is_mine=True)
     check_dict_feedback(chk, rng)
+    check_map_feedback(chk, rng)
     quiet = 0
     for c in cases:
         if isinstance(c.events, dict):
